@@ -28,6 +28,7 @@ STATE = [
     ('Generator::GeneratorImpl', 'libcellml::Generator::implementationCode', {'mModel': 'documented user state (setModel)', 'mProfile': 'documented user state (setProfile)'}),
     ('Generator::GeneratorImpl', 'libcellml::Generator::interfaceCode', {'mModel': 'documented user state (setModel)', 'mProfile': 'documented user state (setProfile)'}),
     ('Printer::PrinterImpl', 'libcellml::Printer::printModel', {'mPrinter': 'back pointer to the public object'}),
+    ('Validator::ValidatorImpl', 'libcellml::Validator::validateModel', {'mValidator': 'back pointer to the public object'}),
 ]
 ENTITY_FILES = ('model.cpp', 'component.cpp', 'componententity.cpp', 'variable.cpp', 'units.cpp', 'reset.cpp', 'importsource.cpp', 'entity.cpp', 'namedentity.cpp', 'importedentity.cpp', 'parentedentity.cpp')
 ENTITY_CLASSES = ('libcellml::Model', 'libcellml::Component', 'libcellml::ComponentEntity', 'libcellml::Variable', 'libcellml::Units', 'libcellml::Reset', 'libcellml::ImportSource',
@@ -294,6 +295,8 @@ def run(F, rep):
         # unchanged only if removal by pointer removes THAT object: the lookup tries identity before structural equality (clause shared with C09)
         import c09
         core.borrow(F, rep, c09, only={'C09.P5'})
+        # a query of the importer's library must not change it (std::map::operator[] inserts): clause shared with C07
+        core.borrow(F, rep, c07, only={'C07.M1'})
     rule_counters(F, rep, 'C12.K1')
     from engines import rule_address_order
     rule_address_order(F, rep, 'C12.A1', lambda g: '/src/' in g.file, 'the library')
